@@ -68,7 +68,7 @@ def run_c09(pid, tier, seed, replay=None):
     ck = vlib.Check(pid, tier, seed)
     wd = vlib.workdir("c09")
     try:
-        af, pf, n, total = _gen(ck, tier, wd, seed, 900 if tier == "quick" else 20000)
+        af, pf, n, total = _gen(ck, tier, wd, seed, 2500 if tier == "quick" else 20000)
         exe = vlib.build_driver("fit_driver", "asan")
         log = os.path.join(wd, "fit.ndjson")
         rc, so, err, _ = vlib.run_driver(exe, ["fit", af, pf, str(seed), log], timeout=3300, env={"OMP_NUM_THREADS": "2"})
@@ -95,7 +95,7 @@ def run_c10(pid, tier, seed, replay=None):
     ck = vlib.Check(pid, tier, seed)
     wd = vlib.workdir("c10")
     try:
-        af, pf, n, total = _gen(ck, tier, wd, seed, 700 if tier == "quick" else 12000)
+        af, pf, n, total = _gen(ck, tier, wd, seed, 2000 if tier == "quick" else 12000)
         exe = vlib.build_driver("fit_driver", "asan")
         log = os.path.join(wd, "mono.ndjson")
         rc, so, err, _ = vlib.run_driver(exe, ["fit", af, pf, str(seed), log, "mono"], timeout=3300, env={"OMP_NUM_THREADS": "3"})
